@@ -18,6 +18,13 @@ func reg(s *Spec) {
 				if a[1] == 3 {
 					ctx = -1 // twelve heartbeat intervals: non-preemptive schedules
 				}
+				if a[1] == 4 {
+					// 260 rounds of Send + inbound request on one connection: both counters wrap; one
+					// schedule (no preemption, first enabled goroutine where the running one blocks)
+					base = append(base, Inst{Pkg: "knx", Fn: "HarnessTunnelBB", Args: []int64{a[0], 4, a[2], 260}, Ctx: -2, Unwind: 3000, MaxSched: 100000, NoNative: true,
+						Note: "black box: 260 acknowledged Sends and 260 inbound requests on one connection built by NewTunnel (both counters pass 255 -> 0), one schedule"})
+					continue
+				}
 				base = append(base, Inst{Pkg: "knx", Fn: "HarnessTunnelBB", Args: []int64{a[0], a[1], a[2]}, Ctx: ctx, MaxSched: 30000, NoNative: true,
 					Note: "black box: real NewTunnel on the redirected socket against a scripted gateway (0 traffic+Close, 1 rejected Send, 2 heartbeat failure and reconnect)"})
 			}
@@ -26,16 +33,16 @@ func reg(s *Spec) {
 		s.Quick = func(l *loaded) []Inst { return add(q(l), false) }
 		s.Thorough = func(l *loaded) []Inst { return add(t(l), true) }
 		s.Covers = append(s.Covers, "BB.end")
-		s.Bounds += "; black-box histories from the real constructor NewTunnel on (exported API only, channels symbolic): connect, Sends (one rejected by an error-status acknowledgement), inbound requests incl. a repetition, unanswered heartbeats followed by a reconnect, twelve answered heartbeat intervals in a row (non-preemptive schedules), Close twice - the clauses of this property asserted on what the scripted gateway saw, context bound 2 (reconnect history: 1 in the quick tier)"
+		s.Bounds += "; black-box histories from the real constructor NewTunnel on (exported API only, channels symbolic): connect, Sends (one rejected by an error-status acknowledgement), inbound requests incl. a repetition, unanswered heartbeats followed by a reconnect, twelve answered heartbeat intervals in a row (non-preemptive schedules), 260 rounds of acknowledged Send plus inbound request on one connection so that both counters pass 255 -> 0 (one schedule: no preemption, first enabled goroutine at blocking points), Close twice - the clauses of this property asserted on what the scripted gateway saw, context bound 2 (reconnect history: 1 in the quick tier)"
 	}
 	specs[s.ID] = s
 }
 
 // tunnelBB: property -> {tcp, scenario, focus} instances of HarnessTunnelBB.
 var tunnelBB = map[string][][3]int64{
-	"C03": {{0, 0, 3}, {0, 1, 3}, {0, 2, 3}, {1, 0, 3}},
-	"C04": {{0, 0, 4}, {0, 2, 4}, {1, 0, 4}},
-	"C05": {{0, 1, 5}},
+	"C03": {{0, 0, 3}, {0, 1, 3}, {0, 2, 3}, {1, 0, 3}, {0, 4, 3}},
+	"C04": {{0, 0, 4}, {0, 2, 4}, {1, 0, 4}, {0, 4, 4}, {1, 4, 4}},
+	"C05": {{0, 1, 5}, {0, 4, 5}},
 	"C09": {{0, 2, 9}, {0, 3, 9}},
 	"C10": {{0, 0, 10}, {1, 0, 10}},
 }
